@@ -91,7 +91,18 @@ def herm_case(case):
     from orquestra.quantum.operators import get_sparse_operator
     sp = get_sparse_operator(simp, n_qubits=n) if len(getattr(simp, "terms", [1])) else None
     if sp is not None:
-        for kind, mat in (("sparse matrix", sp), ("dense matrix", np.asarray(sp.toarray())), ("reference matrix", np.array(M))):
+        import scipy.sparse
+        coo = scipy.sparse.coo_matrix(sp)
+        dim = coo.shape[0]
+        # the same matrix with an explicitly STORED zero that has no mirror entry, in CSR / CSC / COO form, and as the result of sparse products (P (P A P) P with a permutation P - stored
+        # patterns of products need not be symmetric): which entries happen to be stored says nothing about Hermiticity
+        stored0 = scipy.sparse.coo_matrix((np.concatenate([coo.data, [0.0]]), (np.concatenate([coo.row, [0]]), np.concatenate([coo.col, [dim - 1]]))), shape=coo.shape)
+        perm = scipy.sparse.csr_matrix((np.ones(dim), (np.arange(dim), (np.arange(dim) * 3 + 1) % dim if dim % 3 else (np.arange(dim) + 1) % dim)), shape=(dim, dim))
+        prod = (perm.T @ ((perm @ sp @ perm.T) @ perm)).tocsr()
+        variants = [("sparse matrix", sp), ("dense matrix", np.asarray(sp.toarray())), ("reference matrix", np.array(M))]
+        if dim >= 2:
+            variants += [("CSR with a stored zero", stored0.tocsr()), ("CSC with a stored zero", stored0.tocsc()), ("product of sparse matrices", prod)]
+        for kind, mat in variants:
             try:
                 mh = bool(is_hermitian(mat))
             except Exception as e:  # noqa: BLE001
